@@ -81,8 +81,26 @@ static const char *exn_name(const ConfigException &e)
   if(dynamic_cast<const FileIOException *>(&e)) return "FileIOException";
   return "ConfigException";
 }
+/* the path a SettingException must carry when an indexed access on [exp_parent] with index [exp_idx] fails: the parent's
+   own path (Setting::getPath, compared with the model elsewhere) followed by ".[<index>]", the index in plain decimal */
+static config_setting_t *exp_parent; static long exp_idx; static int exp_on;
 static void put_throw(const ConfigException &e)
 {
+  if(exp_on)
+  {
+    exp_on = 0;
+    if(const SettingException *se = dynamic_cast<const SettingException *>(&e))
+    {
+      char want[4200];
+      std::string pp = Setting::wrapSetting(exp_parent).getPath();
+      snprintf(want, sizeof want, "%s.[%ld]", pp.c_str(), exp_idx);
+      const char *got = se->getPath();
+      if(!got || (strcmp(got, want) && !(pp.empty() && !strcmp(got, want + 1))))
+      {
+        fputs("L expath BAD got ", out); put_hs(got); fputs(" want ", out); put_hs(want); fputc('\n', out);
+      }
+    }
+  }
   fprintf(out, "R throw %s", exn_name(e));
   if(const ParseException *p = dynamic_cast<const ParseException *>(&e))
   {
@@ -174,7 +192,8 @@ int xx_op(int n, char **tok)
     {
       config_setting_t *cs = resolve(tok[1]);
       if(!cs) { fputs("R badhandle\n", out); return 1; }
-      Setting &s = Setting::wrapSetting(cs)[atoi(tok[2])]; fputs("R ", out); put_node(s._setting); fputc('\n', out); return 1;
+      exp_parent = cs; exp_idx = atoi(tok[2]); exp_on = 1;
+      Setting &s = Setting::wrapSetting(cs)[atoi(tok[2])]; exp_on = 0; fputs("R ", out); put_node(s._setting); fputc('\n', out); return 1;
     }
     if(n == 3 && IS("xmem"))
     {
@@ -285,7 +304,8 @@ int xx_op(int n, char **tok)
     {
       config_setting_t *cs = resolve(tok[1]);
       if(!cs) { fputs("R badhandle\n", out); return 1; }
-      Setting::wrapSetting(cs).remove((unsigned int)strtoul(tok[2], NULL, 10)); fputs("R unit\n", out); return 1;
+      exp_parent = cs; exp_idx = (int)(unsigned int)strtoul(tok[2], NULL, 10); exp_on = 1;
+      Setting::wrapSetting(cs).remove((unsigned int)strtoul(tok[2], NULL, 10)); exp_on = 0; fputs("R unit\n", out); return 1;
     }
     if(n == 4 && IS("xset"))
     {
